@@ -28,7 +28,7 @@ from props import exprlib as el, c01
 ID = 'C06'
 PROFILES = ['dev']
 REPLAY_PROFILES = ['dev', 'release']
-TIME_LIMIT = {'quick': 900, 'thorough': 3000}
+TIME_LIMIT = {'quick': 900, 'thorough': 3300}
 BUDGET = 120
 FIRST_BUDGET = 60
 
@@ -96,16 +96,16 @@ def jobs(tier, seed, report):
     nlay = 8 if tier == 'quick' else 14
     for n in ([2, 3] if tier == 'quick' else [2, 3, 4, 5]):
         shapes = c01.paren_sets(n)
-        if n >= 4: rnd.shuffle(shapes); shapes = shapes[:10 if n == 4 else 6]
+        if n >= 4: rnd.shuffle(shapes); shapes = shapes[:6 if n == 4 else 3]
         for si, ps in enumerate(shapes):
             toks = c01.tokens_for(n, ps)
-            for li, g in enumerate(layouts(toks, rnd, nlay if n <= 3 else 4, tier)):
-                js.append({'name': f'arith-n{n}-p{si}-l{li}', 'kind': 'arith', 'tokens': restrict_ops(toks, g), 'gaps': g, 'n': n})
+            for li, g in enumerate(layouts(toks, rnd, nlay if n <= 3 else (3 if n == 4 else 2), tier)):
+                js.append({'name': f'arith-n{n}-p{si}-l{li}', 'kind': 'arith', 'tokens': restrict_ops(toks, g), 'gaps': g, 'n': n, **({'exp_bound': 2 if n == 4 else 1} if n >= 4 else {})})
             if tier != 'quick' and n <= 3:
                 for li, g in enumerate(layouts(toks, rnd, 3, tier)[2:3] + layouts(toks, rnd, 9, tier)[7:9]):
                     gg = [x if x == 0 else rnd.choice([' ', ' ', '  ', '\t ']) for x in g]
                     js.append({'name': f'arith-n{n}-p{si}-u{li}', 'kind': 'arith', 'tokens': restrict_ops(toks, g), 'gaps': gg, 'n': n})
-    if tier == 'quick':
+    if True:      # both tiers
         js.append({'name': 'arith-n4-flat', 'kind': 'arith', 'tokens': c01.tokens_for(4, ()), 'gaps': None, 'n': 4, 'exp_bound': 2})
         # five operands: three precedence levels open, then an operator that drops one or two of them
         for fi, al in enumerate((['+-', '*/', '^', '+-*/'], ['*/', '^', '+-*/', '+-*/'], ['+-', '^', '*/', '+-'])):
